@@ -12,10 +12,9 @@
               old content when resized.
   C08.EST     the input-period estimate is only computed once `now > sampling_start` is established
               (sign discipline of the estimate that feeds C08.AGE); it is reachable while the period is
-              unknown, is elapsed / received, its outcome is reported to the caller, and add_sample keeps
-              the two counters it is made of (one increment per stored sample, start = first timestamp).
-              C08.BUF also: resample() resizes the buffer exactly when the estimate changed, before
-              reading it.
+              unknown, is elapsed / received, and add_sample keeps the two counters it is made of (one
+              increment per stored sample, start = first timestamp).  How long the buffer is made is
+              NOT decided: the property allows "the most recent ones that fit the configured buffer".
 """
 from __future__ import annotations
 
@@ -291,6 +290,7 @@ def check_buf(run: Run, prog: Program) -> None:
                       f"found {len(writers)}", node=cls.node, file=cls.module.rel)
         return
     for m, s in writers:
+        run.analysed(m.qual)
         v = s.value
         ok = isinstance(v, ast.Call) and u(v.func) == "deque" and any(k.arg == "maxlen" for k in v.keywords)
         if ok and m.name != "__init__":
@@ -360,13 +360,6 @@ def check_est(run: Run, prog: Program) -> None:
                       "estimate only once the first sample's timestamp is known",
                       "the estimate is computed on a path where sampling_start can still be None",
                       node=fn.node, file=fn.file, path=p.describe())
-        val = p.ret
-        ok = isinstance(val, ast.Constant) and val.value is (True if w else False)
-        run.check(ok, "C08.EST", fn.qual, "returns True exactly when the input period was just estimated",
-                  "the caller is not told (or wrongly told) that the input period changed: the buffer is not "
-                  "resized for the new relevance window (too short a buffer evicts samples that are still relevant)",
-                  node=fn.node, file=fn.file, path=p.describe(),
-                  instance=f"{fn.qual}: return value reports the estimate [{'estimated' if w else 'unchanged'}]")
     # ---- add_sample keeps the two counters the estimate is made of
     ad = prog.func(f"{HELPER}.add_sample")
     te2 = TermEval()
@@ -384,33 +377,6 @@ def check_est(run: Run, prog: Program) -> None:
                   "sampling_start is not exactly the timestamp of the first stored sample", node=ad.node,
                   file=ad.file, path=p.describe(),
                   instance=f"{ad.qual}: sampling_start set once [{'first sample' if unknown else 'later sample'}]")
-
-
-def check_resize(run: Run, prog: Program) -> None:
-    """When resample() learns that the input period changed it resizes the buffer before using it."""
-    fn = prog.func(f"{HELPER}.resample")
-    T = fn.params[1]
-    key = ("truthy", f"self._update_source_sample_period({T})")
-    seen = False
-    for p in _paths(prog, fn):
-        changed = p.outcome(key)
-        if changed is None:
-            upd = p.calls(lambda c: method_call(c, "self", "_update_source_sample_period"))
-            run.check(bool(upd), "C08.BUF", fn.qual, "resample() refreshes the input period estimate",
-                      "the input period estimate is not refreshed (or its outcome not looked at) on this path "
-                      "of a tick", node=fn.node, file=fn.file, path=p.describe())
-            continue
-        seen = True
-        resizes = p.calls(lambda c: method_call(c, "self", "_update_buffer_len"))
-        reads = [e for e in p.calls() if _ext(prog, fn.module, e.node) == "itertools.islice"]
-        before = bool(resizes) and bool(reads) and resizes[0].epoch < reads[0].epoch
-        ok = (changed and len(resizes) == 1 and before) or (not changed and not resizes)
-        run.check(ok, "C08.BUF", fn.qual, "input period changed -> buffer resized before it is read",
-                  "the buffer is not resized exactly when the input period estimate changed, before the "
-                  "relevant samples are read from it", node=fn.node, file=fn.file, path=p.describe(),
-                  instance=f"{fn.qual}: resize iff the estimate changed [{'changed' if changed else 'unchanged'}]")
-    if not seen:
-        raise AnalysisError(f"{fn.qual}: the outcome of _update_source_sample_period is not tested on any path")
 
 
 CONTROLS = [
@@ -431,8 +397,6 @@ CONTROLS = [
     ("buffer-full test made a tautology", MOD, "            or len(self._buffer) < self._buffer.maxlen\n",
      "            or len(self._buffer) <= self._buffer.maxlen\n", "C08.EST"),
     ("sample not counted", MOD, "        self._source_properties.received_samples += 1\n", "", "C08.EST"),
-    ("buffer not resized after a new estimate", MOD, "            self._update_buffer_len()\n\n        conf = self._config",
-     "            pass\n\n        conf = self._config", "C08.BUF"),
 ]
 
 
@@ -440,7 +404,6 @@ def run_rules(run: Run, prog: Program) -> None:
     check_edge(run, prog)
     check_filter(run, prog)
     check_buf(run, prog)
-    check_resize(run, prog)
     check_est(run, prog)
 
 
